@@ -92,6 +92,19 @@ Theorem groups_disjoint :
 Proof. exact Proofs.groups_disjoint. Qed.
 Print Assumptions groups_disjoint.
 
+(* CreateShardGroup is idempotent: repeating it for the same timestamp (any int64 but the
+   last one, whose group [.., MaxNanoTime+1) cannot contain it) returns the existing group:
+   nothing changes but the Term/Index stamp, no ID is consumed.  The lookup
+   (RetentionPolicyInfo.ShardGroupByTimestamp) scans the WHOLE list: [existsb (g_covers t)] *)
+Theorem create_shard_group_idempotent :
+  forall auto d ex ex' idx term idx' term' dbn pol t,
+    reachable auto d -> (- (c06_max_nano_time + 2) <= t <= c06_max_nano_time)%Z ->
+    let r1 := apply auto ex d idx term (CCreateShardGroup dbn pol t) in
+    snd r1 = ENone ->
+    apply auto ex' (fst r1) idx' term' (CCreateShardGroup dbn pol t) = (stamp (fst r1) idx' term', ENone).
+Proof. exact Proofs.create_shard_group_idempotent. Qed.
+Print Assumptions create_shard_group_idempotent.
+
 (* the link: on every input the model passes the executable spec that Run.v evaluates on the
    implementation's observations *)
 Theorem model_satisfies_spec :
